@@ -402,7 +402,7 @@ func cmdCheck(args []string) int {
 		"queries_sat":         a.QSat,
 		"queries_unsat":       a.QUnsat,
 		"queries_unknown":     a.QUnk,
-		"solver":              "z3 4.8.12 (/usr/bin/z3 -in), one incremental process per harness instance",
+		"solver":              defaultSolver() + " (-in): one incremental process per harness instance with a 1 s budget, then a reset-per-query process of the same solver (z3-new = z3 5.1.0; z3 = 4.8.12)",
 		"solver_time_s":       a.SolverS,
 		"load_ssa_s":          ld.LoadS,
 		"assertions":          asserts,
